@@ -319,7 +319,7 @@ known("KF-C10-PROD", "C10", "race-detector", r"raceprod", r"race", r"(R|W):\S+ /
       "deliberate upstream design (lock-free fast path); a fix needs atomic slot loads/stores in both packages")
 
 # ------------------------------------------------------------------ C16
-known("KF-C16-02", "C16", "int-decode", None, r"accepts:leading-zero", r"u?int(8|16|32|64|ptr)?:(plain|pointer|map-key|string-tag|stream)",
+known("KF-C16-02", "C16", "int-decode", None, r"accepts:leading-zero", r"u?int(8|16|32|64|ptr)?:(plain|pointer|map-key|string-tag|stream|map-key-escaped|string-tag-escaped)",
       'Unmarshal("01", &int) = nil, value 1; {"007":true} into map[uint8]bool', "internal/decoder/int.go, uint.go: digit loop accepts any run of digits", "nothing else (exact class)", "same lenient number scanner as KF-C05-01")
 known("KF-C16-03", "C16", "int-decode", None, r"accepts:non-digit", r"u?int(8|16|32|64|ptr)?:stream",
       'NewDecoder("1-").Decode(&int) = nil, 1 (the "-" stays in the stream)', "internal/decoder/int.go, uint.go decodeStreamByte stop at the first non-digit; Decoder.Decode does not look at what follows a top-level value (see KF-C05-11)",
